@@ -447,3 +447,210 @@ theorem show_step {c : DrawCfg} (hrw : RwOk c.rw) (hct : c.cornerTrick = false) 
     · intro _; exact displays_of_drawPost sinv.bufOk dp _ _ _ rfl
 
 end Tcell
+
+namespace Tcell
+open Buf
+
+/-- the screen Sync / the resize branch hand to draw: buffer facts intact, everything dirty, sized like the tty -/
+theorem prep_ok {c : DrawCfg} (hrw : RwOk c.rw) (s : Scr) (w h : Int) (hb : BufOkS c s) (hf : s.fini = false) (hc : s.clear = false) :
+    (BufOkS c (s.prepSync (some (w, h))) ∧ AllDirty (s.prepSync (some (w, h))) ∧ (s.prepSync (some (w, h))).w = w ∧
+      (s.prepSync (some (w, h))).h = h ∧ (s.prepSync (some (w, h))).style = s.style ∧ (s.prepSync (some (w, h))).fini = false ∧
+      (s.prepSync (some (w, h))).clear = true) ∧
+    (BufOkS c (s.prepResize (some (w, h))) ∧ AllDirty (s.prepResize (some (w, h))) ∧ (s.prepResize (some (w, h))).w = w ∧
+      (s.prepResize (some (w, h))).h = h ∧ (s.prepResize (some (w, h))).style = s.style ∧
+      (s.prepResize (some (w, h))).fini = false ∧ (s.prepResize (some (w, h))).clear = false) := by
+  unfold Scr.prepSync Scr.prepResize
+  simp only
+  have b0 : BufOkS c s.forgetCursor := ⟨hb.cw, hb.ch, hb.wok, hb.valid⟩
+  have b1 : BufOkS c (s.forgetCursor.resize (some (w, h))) ∧ (s.forgetCursor.resize (some (w, h))).w = w ∧
+      (s.forgetCursor.resize (some (w, h))).h = h ∧ (s.forgetCursor.resize (some (w, h))).style = s.style ∧
+      (s.forgetCursor.resize (some (w, h))).fini = false ∧ (s.forgetCursor.resize (some (w, h))).clear = false := by
+    by_cases hsz : w = s.forgetCursor.w ∧ h = s.forgetCursor.h
+    · rw [hsz.1, hsz.2, resize_same_size]; exact ⟨b0, rfl, rfl, rfl, hf, hc⟩
+    · rw [resize_diff _ _ _ hsz]
+      exact ⟨(resize_invalidate_ok hrw s.forgetCursor _ _ b0).1, rfl, rfl, rfl, hf, hc⟩
+  generalize s.forgetCursor.resize (some (w, h)) = s1 at b1
+  have ok1 := invalidate_ok s1 b1.1 true
+  have ok2 := invalidate_ok s1 b1.1 s1.clear
+  refine ⟨⟨?_, ?_, b1.2.1, b1.2.2.1, b1.2.2.2.1, b1.2.2.2.2.1, trivial⟩, ⟨?_, ?_, b1.2.1, b1.2.2.1, b1.2.2.2.1, b1.2.2.2.2.1, b1.2.2.2.2.2⟩⟩
+  · exact ok1.1
+  · exact ok1.2
+  · exact ok2.1
+  · exact ok2.2
+
+/-- Sync: whatever the display held before, afterwards it is right and trusted -/
+theorem sync_step {c : DrawCfg} (hrw : RwOk c.rw) (hct : c.cornerTrick = false) {wd : World} (inv : WInv c wd) :
+    WInv c (wd.step c .sync) ∧ Displays c (wd.step c .sync) ∧ (wd.step c .sync).trusted = true ∧
+    (wd.step c .sync).d = some (wd.step c .sync).sw.s.style := by
+  have hfini := inv.fini
+  have ok := (prep_ok hrw wd.sw.s wd.sw.ttyw wd.sw.ttyh inv.buf inv.fini inv.clear).1
+  generalize hs2 : wd.sw.s.prepSync (some (wd.sw.ttyw, wd.sw.ttyh)) = s2 at ok
+  obtain ⟨okb, okd, e1, e2, e3, e4, e5⟩ := ok
+  have hstep : wd.step c .sync =
+      { sw := { wd.sw with s := (s2.draw c).1 }, t := wd.t.applyAll (s2.draw c).2, trusted := true,
+        d := some wd.sw.s.style, fresh := false } := by
+    simp only [World.step, ScrW.step, Scr.sync, hfini, Bool.false_eq_true, if_false, hs2]
+  rw [hstep]
+  have pre : BufOk c s2 wd.t :=
+    { tw := by rw [inv.tdim.1, e1], th := by rw [inv.tdim.2, e2], cw := okb.cw, ch := okb.ch, wok := okb.wok, valid := okb.valid }
+  have dp := draw_post hrw hct (d := some s2.style) pre
+    (by intro h; rw [e5] at h; exact absurd h (by simp)) (fun _ => okd)
+  simp only [if_true] at dp
+  rw [e3] at dp
+  refine ⟨{ buf := ?_, tdim := ?_, clear := dp.clear_done, fini := by rw [dp.fini_same]; exact e4,
+            mism := ?_, tr := fun _ => dp.sync, fr := by intro h; exact absurd h (by simp) }, ?_, rfl, ?_⟩
+  · exact { cw := dp.sync.cw, ch := dp.sync.ch, wok := dp.sync.wok, valid := dp.sync.valid }
+  · have := applyAll_dims wd.t (s2.draw c).2
+    exact ⟨this.1.trans inv.tdim.1, this.2.trans inv.tdim.2⟩
+  · intro h; exfalso; simp only [dp.w_same, dp.h_same, e1, e2] at h; omega
+  · exact displays_of_drawPost pre dp _ _ _ rfl
+  · simp only [dp.style_same, e3]
+
+/-- a window resize that reaches the library (mainLoop's resize branch): afterwards the display is right and trusted -/
+theorem notify_step {c : DrawCfg} (hrw : RwOk c.rw) (hct : c.cornerTrick = false) {wd : World} (inv : WInv c wd) (w h : Int) :
+    WInv c (wd.step c (.ttyResizeNotify w h)) ∧ Displays c (wd.step c (.ttyResizeNotify w h)) ∧
+    (wd.step c (.ttyResizeNotify w h)).trusted = true ∧
+    (wd.step c (.ttyResizeNotify w h)).d = some (wd.step c (.ttyResizeNotify w h)).sw.s.style := by
+  have ok := (prep_ok hrw wd.sw.s w h inv.buf inv.fini inv.clear).2
+  generalize hs2 : wd.sw.s.prepResize (some (w, h)) = s2 at ok
+  obtain ⟨okb, okd, e1, e2, e3, e4, e5⟩ := ok
+  have hstep : wd.step c (.ttyResizeNotify w h) =
+      { sw := { s := (s2.draw c).1, ttyw := w, ttyh := h }, t := (wd.t.resized w h).applyAll (s2.draw c).2, trusted := true,
+        d := some wd.sw.s.style, fresh := false } := by
+    simp only [World.step, ScrW.step, Scr.onResize, hs2]
+  rw [hstep]
+  have sinv : SyncInv c (some s2.style) s2 (wd.t.resized w h) :=
+    SyncInv.fresh (by rw [e1]; rfl) (by rw [e2]; rfl) okb.cw okb.ch okb.wok okb.valid okd (fun _ _ => rfl)
+  have dp := draw_post hrw hct (d := some s2.style) sinv.bufOk (fun _ => sinv) (fun _ => okd)
+  simp only [if_true] at dp
+  rw [e3] at dp
+  refine ⟨{ buf := ?_, tdim := ?_, clear := dp.clear_done, fini := by rw [dp.fini_same]; exact e4,
+            mism := ?_, tr := fun _ => dp.sync, fr := by intro h; exact absurd h (by simp) }, ?_, rfl, ?_⟩
+  · exact { cw := dp.sync.cw, ch := dp.sync.ch, wok := dp.sync.wok, valid := dp.sync.valid }
+  · have := applyAll_dims (wd.t.resized w h) (s2.draw c).2
+    exact ⟨this.1, this.2⟩
+  · intro hh; exfalso; simp only [dp.w_same, dp.h_same, e1, e2] at hh; omega
+  · exact displays_of_drawPost sinv.bufOk dp _ _ _ rfl
+  · simp only [dp.style_same, e3]
+
+end Tcell
+
+namespace Tcell
+open Buf
+
+theorem winv_bufop {c : DrawCfg} {wd : World} (inv : WInv c wd) (b' : Buf) (hb : BufStep c.rw wd.sw.s.cells b') :
+    WInv c { wd with sw := { wd.sw with s := { wd.sw.s with cells := b' } } } :=
+  { buf := { cw := by simp only; rw [hb.w]; exact inv.buf.cw, ch := by simp only; rw [hb.h]; exact inv.buf.ch,
+             wok := hb.wok inv.buf.wok, valid := ⟨inv.buf.valid.1, hb.valid inv.buf.valid.2⟩ },
+    tdim := inv.tdim, clear := inv.clear, fini := inv.fini, mism := inv.mism,
+    tr := fun h => (inv.tr h).bufStep hb rfl rfl rfl,
+    fr := fun h x y hr => hb.dirty x y (inv.fr h x y (by simpa [inRange_iff, hb.w, hb.h] using hr)) }
+
+/-- every operation preserves the world invariant -/
+theorem step_inv {c : DrawCfg} (hrw : RwOk c.rw) (hct : c.cornerTrick = false) {wd : World} (inv : WInv c wd) (op : ScrOp)
+    (hv : op.Valid c) : WInv c (wd.step c op) := by
+  cases op with
+  | setContent x y m comb st =>
+    exact winv_bufop inv _ (bufStep_setContent c.rw _ x y m comb st hv)
+  | fill r st =>
+    exact winv_bufop inv _ (bufStep_fill c.rw _ r st hv.1 hv.2)
+  | lockRegion x y w h lock =>
+    exact winv_bufop inv _ (bufStep_lockRows c.rw _ x y w lock _)
+  | setStyle st =>
+    have hf := inv.fini
+    simp only [World.step, ScrW.step, hf, Bool.false_eq_true, if_false, ATerm.applyAll, List.foldl_nil]
+    exact { buf := { cw := inv.buf.cw, ch := inv.buf.ch, wok := inv.buf.wok, valid := ⟨hv, inv.buf.valid.2⟩ },
+            tdim := inv.tdim, clear := inv.clear, fini := rfl, mism := inv.mism,
+            tr := fun h =>
+              let i := inv.tr h
+              { tw := i.tw, th := i.th, cw := i.cw, ch := i.ch, wok := i.wok, valid := ⟨hv, i.valid.2⟩, g1 := i.g1, g2 := i.g2,
+                wf := i.wf, g3 := i.g3 },
+            fr := inv.fr }
+  | showCursor x y =>
+    exact { buf := ⟨inv.buf.cw, inv.buf.ch, inv.buf.wok, inv.buf.valid⟩, tdim := inv.tdim, clear := inv.clear, fini := inv.fini,
+            mism := inv.mism, tr := fun h => (inv.tr h).congr rfl rfl rfl rfl rfl rfl rfl, fr := inv.fr }
+  | setCursorStyle cs cc =>
+    exact { buf := ⟨inv.buf.cw, inv.buf.ch, inv.buf.wok, inv.buf.valid⟩, tdim := inv.tdim, clear := inv.clear, fini := inv.fini,
+            mism := inv.mism, tr := fun h => (inv.tr h).congr rfl rfl rfl rfl rfl rfl rfl, fr := inv.fr }
+  | «show» => exact (show_step hrw hct inv).1
+  | sync => exact (sync_step hrw hct inv).1
+  | ttyResizeQuiet w h =>
+    exact { buf := inv.buf, tdim := ⟨rfl, rfl⟩, clear := inv.clear, fini := inv.fini, mism := fun _ _ _ => rfl,
+            tr := by intro h; exact absurd h (by simp [World.step]), fr := inv.fr }
+  | ttyResizeNotify w h => exact (notify_step hrw hct inv w h).1
+  | corrupt =>
+    exact { buf := inv.buf, tdim := inv.tdim, clear := inv.clear, fini := inv.fini, mism := fun _ _ _ => rfl,
+            tr := by intro h; exact absurd h (by simp [World.step]), fr := inv.fr }
+
+theorem init_inv {c : DrawCfg} (hrw : RwOk c.rw) (w h : Int) : WInv c (World.init w h) := by
+  refine { buf := { cw := by simp [World.init, ScrW.init, resize_w], ch := by simp [World.init, ScrW.init, resize_h],
+                    wok := ?_, valid := ⟨by simp [World.init, ScrW.init, attrInvalid], ?_⟩ },
+           tdim := ⟨rfl, rfl⟩, clear := rfl, fini := rfl, mism := fun h => by simp [World.init, ScrW.init] at h,
+           tr := ?_, fr := ?_ }
+  · intro x y
+    simp only [World.init, ScrW.init]
+    by_cases hh : Buf.empty.h = h ∧ Buf.empty.w = w
+    · obtain ⟨rfl, rfl⟩ := hh; rw [resize_same]; left; simp [Buf.empty, hrw.zero]
+    · rw [resize_cells _ _ _ _ _ hh]; split <;> (left; simp [Buf.empty, Cell.carry, hrw.zero])
+  · intro x y
+    simp only [World.init, ScrW.init]
+    by_cases hh : Buf.empty.h = h ∧ Buf.empty.w = w
+    · obtain ⟨rfl, rfl⟩ := hh; rw [resize_same]; simp [Buf.empty, attrInvalid]
+    · rw [resize_cells _ _ _ _ _ hh]; split <;> simp [Buf.empty, Cell.carry, attrInvalid]
+  · intro _
+    have hall : AllDirty (World.init w h).sw.s := by
+      intro x y _
+      simp only [World.init, ScrW.init]
+      by_cases hh : Buf.empty.h = h ∧ Buf.empty.w = w
+      · obtain ⟨rfl, rfl⟩ := hh; rw [resize_same]; rfl
+      · rw [resize_cells _ _ _ _ _ hh]; split <;> rfl
+    refine SyncInv.fresh rfl rfl (by simp [World.init, ScrW.init, resize_w]) (by simp [World.init, ScrW.init, resize_h])
+      ?_ ⟨by simp [World.init, ScrW.init, attrInvalid], ?_⟩ hall (fun _ _ => rfl)
+    · intro x y
+      simp only [World.init, ScrW.init]
+      by_cases hh : Buf.empty.h = h ∧ Buf.empty.w = w
+      · obtain ⟨rfl, rfl⟩ := hh; rw [resize_same]; left; simp [Buf.empty, hrw.zero]
+      · rw [resize_cells _ _ _ _ _ hh]; split <;> (left; simp [Buf.empty, Cell.carry, hrw.zero])
+    · intro x y
+      simp only [World.init, ScrW.init]
+      by_cases hh : Buf.empty.h = h ∧ Buf.empty.w = w
+      · obtain ⟨rfl, rfl⟩ := hh; rw [resize_same]; simp [Buf.empty, attrInvalid]
+      · rw [resize_cells _ _ _ _ _ hh]; split <;> simp [Buf.empty, Cell.carry, attrInvalid]
+  · intro _ x y _
+    simp only [World.init, ScrW.init]
+    by_cases hh : Buf.empty.h = h ∧ Buf.empty.w = w
+    · obtain ⟨rfl, rfl⟩ := hh; rw [resize_same]; rfl
+    · rw [resize_cells _ _ _ _ _ hh]; split <;> rfl
+
+/-- every world reachable from Init by valid operations satisfies the invariant -/
+theorem reach_inv {c : DrawCfg} (hrw : RwOk c.rw) (hct : c.cornerTrick = false) (w h : Int) (ops : List ScrOp)
+    (hv : ∀ op ∈ ops, op.Valid c) : WInv c ((World.init w h).run c ops) := by
+  suffices H : ∀ wd, WInv c wd → WInv c (wd.run c ops) from H _ (init_inv hrw w h)
+  induction ops with
+  | nil => intro wd h; exact h
+  | cons op ops ih =>
+    intro wd hw
+    simp only [World.run, List.foldl_cons]
+    exact ih (fun o ho => hv o (List.mem_cons_of_mem _ ho)) _ (step_inv hrw hct hw op (hv op (List.mem_cons_self ..)))
+
+end Tcell
+
+namespace Tcell
+open Buf
+
+/-- which cells a Show sends payload to, when the display is trusted and the size is unchanged -/
+theorem show_writes {c : DrawCfg} (hrw : RwOk c.rw) (hct : c.cornerTrick = false) {wd : World} (inv : WInv c wd)
+    (htr : wd.trusted = true) (hsz : wd.sw.ttyw = wd.sw.s.w ∧ wd.sw.ttyh = wd.sw.s.h) :
+    ∃ ws, (wd.step c .show).t.writes = ws ++ wd.t.writes ∧
+      ∀ p ∈ ws, wd.sw.s.cells.dirty p.1 p.2 = true ∧ visited c.rw wd.sw.s.cells p.1 p.2 = true := by
+  have hfini := inv.fini
+  have hstep : (wd.step c .show).t = wd.t.applyAll (wd.sw.s.draw c).2 := by
+    simp only [World.step, ScrW.step, Scr.show, hfini, hsz, resize_same_size, and_self, if_true, Bool.false_eq_true, if_false]
+  rw [hstep]
+  have pre : BufOk c wd.sw.s wd.t :=
+    { tw := by rw [inv.tdim.1, hsz.1], th := by rw [inv.tdim.2, hsz.2], cw := inv.buf.cw, ch := inv.buf.ch,
+      wok := inv.buf.wok, valid := inv.buf.valid }
+  have dp := draw_post hrw hct (d := wd.d) pre (fun _ => inv.tr htr) (by intro h; rw [inv.clear] at h; exact absurd h (by simp))
+  exact dp.writes
+
+end Tcell
